@@ -144,8 +144,21 @@ def builder_calls(rng):
         'ablation': (lambda a: Marker().ablation([[a[0], a[1], 0.0], [a[2], a[1], 0.0]], shift=a[3]), [0.0, 0.0, 1.0, 0.01]),
         'box': (lambda a: Marker().box([a[0], a[1], 0.0], width=a[2], height=a[3]), [0.0, 0.0, 1.0, 0.06]),
         'marker_attr': (lambda a: Marker(speed=a[0], speed_closed=a[1], speed_pos=a[2], depth=a[3]).cross([0.0, 0.0]), [1.0, 5.0, 0.5, 0.0]),
+        'raster': (lambda a: _raster(px_to_mm=a[0], speed=a[1], speed_closed=a[2], z_init=a[3]), [0.01, 1.0, 5.0, 0.0]),
+        'raster_pos': (lambda a: _raster(px_to_mm=a[0], speed_pos=a[1], shutter=1, speed=a[2]), [0.04, 0.5, 2.0]),
     }
     return calls
+
+
+def _raster(**kw):
+    from femto.rasterimage import RasterImage
+    from PIL import Image
+    img = Image.new('1', (12, 5), 1)
+    for (x, y) in [(1, 0), (2, 0), (3, 0), (7, 1), (0, 2), (11, 2), (4, 4), (5, 4)]:
+        img.putpixel((x, y), 0)
+    r = RasterImage(**kw)
+    r.image_to_path(img)
+    return r
 
 
 def check_obj(o):
@@ -197,14 +210,15 @@ def run_grid(ctx):
             ctx.seen({'stream': 'grid', **case}, any(a != 0 and not (1e-3 <= abs(a) <= 1e3) for a in args) or any(a == 0 for a in args))
             ctx.count('grid.call', name)
             holder = {}
-            # find the object the call works on: the lambdas build it themselves, so capture it through add_path
+            # find the object the call works on: the lambdas build it themselves, so capture it at construction (not through
+            # add_path: a builder that stores points without going through the guard must be seen as well)
             from femto.laserpath import LaserPath
-            orig_add = LaserPath.add_path
+            orig_add = LaserPath.__post_init__
 
             def spy(self, *a, **kw):
                 holder['obj'] = self
                 return orig_add(self, *a, **kw)
-            LaserPath.add_path = spy
+            LaserPath.__post_init__ = spy
             import signal
             old = signal.signal(signal.SIGALRM, _alarm)
             signal.setitimer(signal.ITIMER_REAL, 0.5)
@@ -217,7 +231,7 @@ def run_grid(ctx):
             finally:
                 signal.setitimer(signal.ITIMER_REAL, 0)
                 signal.signal(signal.SIGALRM, old)
-                LaserPath.add_path = orig_add
+                LaserPath.__post_init__ = orig_add
             ctx.count('grid.outcome', 'ok' if outcome == 'ok' else 'raised:' + outcome)
             obj = holder.get('obj')
             prob = check_obj(obj)
